@@ -549,4 +549,57 @@ theorem gen_instancedict_getitem_is_model (env : Env) (v : Val) (cache : List (T
           cases attrs.lookup key <;> simp
       | _ => rfl
 
+private theorem getitemLoop_spec (env : Env) (fuel : Nat) (key : Text) (call : Bool) :
+    ∀ (below above : List Frame) (st : St),
+    GenNs.getitemLoopGen env fuel key call below above st =
+      (match lookupStack env below key st.trace with
+       | (.missing, tr) => (.raise (keyError key), { st with trace := tr })
+       | (.raise e, tr) => (.raise e, { st with trace := tr })
+       | (.val v below', tr) =>
+         let st : St := { st with stack := above ++ below', trace := tr }
+         if call then
+           match v with
+           | .fn id r => invoke env id r st
+           | .tmpl id => callSub env fuel id st
+           | v => (.ok v, st)
+         else (.ok v, st)) := by
+  intro below
+  induction below with
+  | nil => intro above st; simp [GenNs.getitemLoopGen, lookupStack]
+  | cons f fs ih =>
+    intro above st
+    simp only [GenNs.getitemLoopGen, lookupStack]
+    cases hfg : frameGet env f key st.trace with
+    | mk r tr =>
+      cases r with
+      | missing =>
+        simp only
+        rw [ih (above ++ [f]) { st with trace := tr }]
+        simp only
+        cases hl : lookupStack env fs key tr with
+        | mk r2 tr2 =>
+          cases r2 with
+          | missing => rfl
+          | raise e => rfl
+          | val v fs' => simp [List.append_assoc]
+      | raise e => rfl
+      | val v f' =>
+        simp only
+        cases call with
+        | false => rfl
+        | true =>
+          cases v <;> simp [GenNs.hasRenderWithNamespace, GenNs.safeCallable, GenNs.isHTTPException, GenNs.isDocTemp,
+            GenNs.callTemplate, GenNs.callPlain]
+
+/-- **The namespace lookup of the model is the one of the source**: `GenNs.getitemLoopGen` is regenerated on every run from
+`TemplateDict.getitem` (the loop over `reversed(self._data)`, `try: e = e[key] except (KeyError, NameError): continue`, the
+`if call:` block with its tests in the order of the source, `raise KeyError(key)`); started on the whole namespace it
+computes `Render.getitem` - `md[name]` with `call = true`, `md.getitem(name, 0)` with `call = false`. -/
+theorem gen_templatedict_getitem_is_model (env : Env) (fuel : Nat) (key : Text) (call : Bool) (st : St) :
+    GenNs.getitemLoopGen env fuel key call st.stack [] st = getitem env (fuel + 1) key call st := by
+  rw [getitemLoop_spec]
+  simp only [getitem, List.nil_append]
+  cases lookupStack env st.stack key st.trace with
+  | mk r tr => cases r <;> rfl
+
 end DTML.Props.C02
